@@ -281,7 +281,7 @@ Proof.
   induction cps as [|cp cps IH]; intro H; [reflexivity|].
   cbn [forallb] in H. apply andb_true_iff in H. destruct H as [H1 H2].
   cbn [flat_map]. rewrite bytes_ok_app, (IH H2), andb_true_r.
-  assert (Hlt : cp < 1114112) by (unfold getutf8_accepts_char, is_scalar in H1; lia).
+  assert (Hlt : cp < 1114112) by (unfold getutf8_accepts_char, is_yang_char, is_scalar in H1; lia).
   exact (N_all_below_spec _ _ enc_bytes_ok_all cp Hlt).
 Qed.
 
